@@ -58,6 +58,10 @@ func QToProto(q Q) *webserverv1.Q {
 }
 
 func QFromProto(p *webserverv1.Q) (Q, error) {
+	if p == nil {
+		// an absent query or an absent child of not/type/symbol/boost
+		return nil, fmt.Errorf("missing query")
+	}
 	switch v := p.Query.(type) {
 	case *webserverv1.Q_RawConfig:
 		return RawConfigFromProto(v.RawConfig), nil
@@ -98,7 +102,9 @@ func QFromProto(p *webserverv1.Q) (Q, error) {
 	case *webserverv1.Q_Meta:
 		return MetaFromProto(v.Meta)
 	default:
-		panic(fmt.Sprintf("unknown query node %T", p.Query))
+		// a Q whose oneof is unset (or of a kind this version does not know)
+		// is a malformed request, not a reason to crash the server
+		return nil, fmt.Errorf("unknown query node %T", p.Query)
 	}
 }
 
